@@ -203,10 +203,17 @@ pub fn main(rest: &[String]) -> i32 {
         }
         let mut rec = json!({"t":"verify","c":c,"accepted":acc,"panicked":panicked,"injected":false,
                              "node_changed":false,"node_effects":0,"node_frames":0,"counted":false});
+        let mut extra_recs: Vec<Value> = Vec::new();
         if chosen.contains(&ci) && !acc {
-            // a fresh real node that is neither the author nor the first signer
+            // a fresh real node that is neither the author nor the first signer -- and, for votes and timeouts, also the node whose own
+            // name the message claims (a message forged in the receiver's name must be rejected like any other)
             let author = o.get("author").and_then(|x| x.as_i64()).unwrap_or(0) as usize;
-            let me = (author + 1) % n;
+            let mut targets = vec![(author + 1) % n];
+            if (kind == "vote" || kind == "timeout") && author < n {
+                targets.push(author);
+            }
+            for (ti, me) in targets.into_iter().enumerate() {
+            let mut rec_t = rec.clone();
             let mut rig = Rig::new(mk_cfg(Some(me)));
             let _ = rig.take_frames();
             let before = rig.events.iter().rev().find(|e| e["t"] == "core").map(|e| e["st"].clone());
@@ -224,10 +231,10 @@ pub fn main(rest: &[String]) -> i32 {
             let after = steps.last().map(|e| e["st"].clone()).or_else(|| before.clone());
             let effects: usize = steps.iter().map(|e| e["out"].as_array().map(|x| x.len()).unwrap_or(0)).sum();
             let tasks = rig.events[n_events..].iter().filter(|e| e["t"] == "task").count();
-            rec["injected"] = json!(true);
-            rec["node_changed"] = json!(before != after);
-            rec["node_effects"] = json!(effects + tasks);
-            rec["node_frames"] = json!(frames.len());
+            rec_t["injected"] = json!(true);
+            rec_t["node_changed"] = json!(before != after);
+            rec_t["node_effects"] = json!(effects + tasks);
+            rec_t["node_frames"] = json!(frames.len());
             // complement probe: valid votes/timeouts of other members that stay below the quorum on their own but
             // would reach it together with the rejected one -- a certificate appears only if the rejected message was counted
             if kind == "vote" || kind == "timeout" {
@@ -256,16 +263,63 @@ pub fn main(rest: &[String]) -> i32 {
                         let formed = rig.events[n_events..].iter().filter(|e| e["t"] == "core").any(|e| {
                             e["out"].as_array().map(|x| x.iter().any(|o| o["k"] == "qc" || o["k"] == "tcmade")).unwrap_or(false)
                         });
-                        rec["counted"] = json!(formed);
+                        rec_t["counted"] = json!(formed);
                     }
                 }
             }
             if !rig.panics.is_empty() || !crate::util::take_panics().is_empty() {
-                rec["panicked"] = json!(true);
+                rec_t["panicked"] = json!(true);
             }
             injected_n += 1;
+                if ti == 0 {
+                    rec = rec_t;
+                } else {
+                    rec_t["target"] = json!("claimed_author");
+                    extra_recs.push(rec_t);
+                }
+            }
         }
         w.write(&rec);
+        for r in extra_recs {
+            w.write(&r);
+        }
+    }
+    // replay probe: the same VALID vote (timeout) delivered three times, then one more member's -- still below the quorum of distinct
+    // signers, so no certificate may appear (a replayed message counts once)
+    {
+        let total: u32 = stakes.iter().sum();
+        let quorum = 2 * total / 3 + 1;
+        for what in ["vote", "timeout"] {
+            // two distinct members whose joint stake is below the quorum, but would reach it if the first counted three times
+            let mut pick = None;
+            for a in 0..n {
+                for b in 0..n {
+                    if a != b && stakes[a] > 0 && stakes[b] > 0 && stakes[a] + stakes[b] < quorum && 3 * stakes[a] + stakes[b] >= quorum {
+                        pick = Some((a, b));
+                    }
+                }
+            }
+            if let Some((a, b)) = pick {
+                let me = (0..n).find(|x| *x != a && *x != b).unwrap_or(0);
+                let mut rig = Rig::new(mk_cfg(Some(me)));
+                let _ = rig.take_frames();
+                let n_events = rig.events.len();
+                let blk = blk_digest(5);
+                for who in [a, a, a, b] {
+                    let m = if what == "vote" {
+                        ConsensusMessage::Vote(rig.make_vote(who, &blk, 1))
+                    } else {
+                        ConsensusMessage::Timeout(rig.make_timeout(who, 1, QC::genesis()))
+                    };
+                    rig.inject_msg(me, &m);
+                }
+                rig.pump(me);
+                let formed = rig.events[n_events..].iter().filter(|e| e["t"] == "core").any(|e| {
+                    e["out"].as_array().map(|x| x.iter().any(|o| o["k"] == "qc" || o["k"] == "tcmade")).unwrap_or(false)
+                });
+                w.write(&json!({"t":"replay","what":what,"first":a,"second":b,"node":me,"counted":formed}));
+            }
+        }
     }
     w.write(&json!({"t":"end"}));
     let lines = w.lines;
